@@ -132,9 +132,22 @@ def make_case(tier, seed, index):
             faults.append({"k": "frag", "s": -1, "d1": DEFAULT_LATENCY, "d2": rnd.choice([2 * DEFAULT_LATENCY, tau / 2])})
         elif last == "dup":
             faults.append({"k": "dup", "d1": DEFAULT_LATENCY, "d2": rnd.choice([2 * DEFAULT_LATENCY, tau / 2])})
-    return {"kind": "random", "framing": fr, "cmd": cmd, "pclass": cl, "pseed": rnd.randrange(1 << 16),
+    case = {"kind": "random", "framing": fr, "cmd": cmd, "pclass": cl, "pseed": rnd.randrange(1 << 16),
             "comm_addr": rnd.randrange(256), "trailing": trailing, "timeout": tau, "retries": r,
             "keep_alive": rnd.random() < 0.5, "faults": faults}
+    if fr in ("rtu", "tcp") and not faults and not trailing and rnd.random() < 0.4:
+        # history: an EARLIER read on the same object lost the tail of its fragmented answer (and succeeded on the
+        # retry); the missing tail had exactly the length of this request's conforming answer
+        alen = (7 if fr == "rtu" else 9) + 2 * cmd["count"] if cmd["op"] == "read" else (10 if fr == "rtu" else 12)
+        hdr = 5 if fr == "rtu" else 9
+        n1 = rnd.randint(max(1, (alen + hdr - (7 if fr == "rtu" else 9) + 2) // 2), 125) if alen + hdr <= (7 if fr == "rtu" else 9) + 250 else None
+        if n1 is not None:
+            L1 = (7 if fr == "rtu" else 9) + 2 * n1
+            if L1 - alen >= hdr:
+                case["pre"] = {"count": n1, "s": L1 - alen}
+                case["keep_alive"] = True
+                case["retries"] = max(1, r)
+    return case
 
 
 def simplify(case):
@@ -199,6 +212,11 @@ def run_case(case):
     state = {}
 
     async def main():
+        if case.get("pre"):
+            world.net.begin_script([{"k": "lonefrag", "s": case["pre"]["s"]}], {"k": "ok"})
+            state["pre"] = await C.do_execute(world, proto, {"op": "read", "reg": 100, "count": case["pre"]["count"]}, "pre")
+            state["tx_pre"] = world.net.n_tx
+            world.net.begin_script(faults, default)
         state["rec"] = await C.do_execute(world, proto, {k: v for k, v in cmd.items() if k != "blocklen"}, "req")
 
     status, _ = C.run_world(world, main())
@@ -208,7 +226,8 @@ def run_case(case):
     outcome = rec["outcome"] if rec else status
     benign = bool(case["faults"])
     ndrop = sum(1 for f in case["faults"] if f["k"] == "drop")
-    ans = next((a for a in net.answers if a is not None), None)
+    txp = state.get("tx_pre", 0)
+    ans = next((a for a in net.answers[txp:] if a is not None), None)
     why = "other"
     if fr == "aa55" and ans is not None and sum(ans[:-2]) >= 0x10000:
         why = "sum>=0x10000"
@@ -220,9 +239,10 @@ def run_case(case):
                                f"conforming answer {ans.hex() if ans else None} (payload class {case['pclass']}, size "
                                f"{size}, comm addr {case['comm_addr']}, trailing {case['trailing']!r}) -> {outcome}"))
     else:
-        if len(net.transmissions) != ndrop + 1:
+        if len(net.transmissions) - txp != ndrop + 1:
             violations.append(viol(f"C02:retransmitted:{fr}:{op}:{why}",
-                                   f"{len(net.transmissions)} transmissions, expected {ndrop + 1}"))
+                                   f"{len(net.transmissions) - txp} transmissions, expected {ndrop + 1}"
+                                   + (" (after an earlier request that lost a fragment tail)" if case.get("pre") else "")))
         if served is not None:
             data = rec["data"]
             if case["trailing"]:
@@ -231,12 +251,12 @@ def run_case(case):
             elif data != served:
                 violations.append(viol(f"C02:payload:{fr}:{op}", f"response_data {data.hex()} != served {served.hex()}"))
         if not benign:
-            dls = [d for d in net.deliveries if d["status"] == "delivered"]
+            dls = [d for d in net.deliveries if d["status"] == "delivered" and d["tx"] >= txp]
             if dls and rec["t1"] != dls[0]["t_run"]:
                 violations.append(viol(f"C02:not-at-delivery:{fr}", f"delivered at {dls[0]['t_run']}, completed at {rec['t1']}"))
     kinds = tuple(f["k"] for f in case["faults"])
     sig = (fr, op, size, case["pclass"], case["comm_addr"], bool(case["trailing"]), kinds, outcome)
     nontrivial = case["pclass"] != "zero" or benign
-    probes = {"high_sum_aa55": 1 if why != "other" else 0, "benign": 1 if benign else 0,
+    probes = {"with_fragment_history": 1 if case.get("pre") else 0, "high_sum_aa55": 1 if why != "other" else 0, "benign": 1 if benign else 0,
               "trailing": 1 if case["trailing"] else 0}
     return C.package(world, case, violations, sig, nontrivial, probes)
